@@ -12,6 +12,7 @@ import (
 	"time"
 
 	"github.com/anishathalye/porcupine"
+	"github.com/esimov/gogu/stack"
 
 	"verif/simrt"
 )
@@ -27,13 +28,27 @@ type ContWork struct {
 	Tasks [][]OpCall `json:"tasks"`
 	Shape string     `json:"shape"`           // pair | triple | mix | ...
 	Alpha int        `json:"alpha,omitempty"` // size of the key/value alphabet the run drew (accounting only)
+	// Pre is a sequential history the instance has behind it before the concurrent calls start
+	// (executed by one goroutine right after the initial content is stored, in the concurrent run and
+	// in every sequential reference alike): typically "grow, then drain", which leaves spare capacity
+	// and internal state that push-only initial contents never reach.
+	Pre []OpCall `json:"pre,omitempty"`
+}
+
+// newInst builds the instance of a workload: initial content, then the sequential pre-history.
+func (w *ContWork) newInst(cfg int) instance {
+	inst := adapterByName(w.Type).build(w.Init, cfg)
+	for _, o := range w.Pre {
+		inst.call(o)
+	}
+	return inst
 }
 
 func (w *ContWork) Sim() SimSpec { return w.P }
 
 func (w *ContWork) Key() string {
 	var b strings.Builder
-	fmt.Fprintf(&b, "%s/%s/%d/%v", w.Mode, w.Type, w.Cfg, w.Init)
+	fmt.Fprintf(&b, "%s/%s/%d/%v/%v", w.Mode, w.Type, w.Cfg, w.Init, w.Pre)
 	for _, t := range w.Tasks {
 		b.WriteString("|")
 		for _, o := range t {
@@ -135,7 +150,32 @@ func safeCall(inst instance, o OpCall) (res, pan, stack string) {
 		simrt.Sleep(10 * time.Millisecond)
 		return "", "", ""
 	}
+	if strings.HasPrefix(o.Op, "auto:") {
+		return autoCall(inst, adapterOf(inst), o), "", ""
+	}
 	return inst.call(o), "", ""
+}
+
+func adapterOf(inst instance) *adapter {
+	switch x := inst.(type) {
+	case *heapInst:
+		return &heapAdapter
+	case *bstInst:
+		return &bstAdapter
+	case *trieInst:
+		return &trieAdapter
+	case *queueInst:
+		if x.q != nil {
+			return &queueAdapter
+		}
+		return &lqueueAdapter
+	case *stackInst:
+		if _, ok := x.s.(*stack.Stack[int]); ok {
+			return &stackAdapter
+		}
+		return &lstackAdapter
+	}
+	return &cacheAdapter
 }
 
 func safeObserve(inst instance) (res []string, pan string) {
@@ -160,8 +200,7 @@ func normPanic(p string) string {
 }
 
 func (w *ContWork) Exec(x *Exec) {
-	ad := adapterByName(w.Type)
-	inst := ad.build(w.Init, w.Cfg)
+	inst := w.newInst(w.Cfg)
 	recs := make([][]callRec, len(w.Tasks))
 	for ti := range w.Tasks {
 		ti := ti
@@ -343,7 +382,6 @@ func interleavings(lens []int, limit int) (orders [][]int, complete bool) {
 // serialPanics runs every serial order of the program's calls (followed by the
 // observer sequence) on fresh instances and reports whether any of them panics.
 func (w *ContWork) serialPanics() (panics bool, exhaustive bool) {
-	ad := adapterByName(w.Type)
 	lens := make([]int, len(w.Tasks))
 	for i, t := range w.Tasks {
 		lens[i] = len(t)
@@ -355,7 +393,7 @@ func (w *ContWork) serialPanics() (panics bool, exhaustive bool) {
 	}
 	orders, complete := interleavings(lens, limit)
 	one := func(ord []int) (panicked bool) {
-		inst := ad.build(w.Init, serialCfg(w.Type, w.Cfg))
+		inst := w.newInst(serialCfg(w.Type, w.Cfg))
 		pos := make([]int, len(w.Tasks))
 		for _, t := range ord {
 			o := w.Tasks[t][pos[t]]
@@ -403,7 +441,6 @@ type linInput struct {
 }
 
 func (w *ContWork) checkLinearizable(out *RunOut, h *contHistory) {
-	ad := adapterByName(w.Type)
 	calls := h.Calls
 	memo := map[string]string{}
 	timed := timedCfg(w.Type, w.Cfg)
@@ -427,7 +464,7 @@ func (w *ContWork) checkLinearizable(out *RunOut, h *contHistory) {
 		}
 		res := ""
 		body := func() {
-			inst := ad.build(w.Init, serialCfg(w.Type, w.Cfg))
+			inst := w.newInst(serialCfg(w.Type, w.Cfg))
 			at := func(i int) int64 {
 				if !timed {
 					return -1
@@ -542,6 +579,7 @@ var allPairs []pairSpec
 
 func init() {
 	for _, ad := range adapters {
+		discoverAutoOps(ad)
 		for i := range ad.ops {
 			for j := i; j < len(ad.ops); j++ {
 				allPairs = append(allPairs, pairSpec{ad, i, j})
@@ -617,6 +655,9 @@ func genC01(r *simrt.Rand, tier string, idx uint64) Workload {
 	alpha := drawAlpha(r, ad)
 	w.Alpha = alpha
 	w.Init = genInit(r, ad, alpha)
+	if r.Intn(7) == 0 {
+		w.Pre = genPre(r, ad, alpha)
+	}
 	switch {
 	case shapeDraw < pairCut:
 		w.Shape = "pair"
@@ -671,6 +712,63 @@ func genC01(r *simrt.Rand, tier string, idx uint64) Workload {
 	return w
 }
 
+var mutatorOps = map[string]bool{"Push": true, "Pop": true, "Clear": true, "Delete": true, "Upsert": true, "Put": true,
+	"Enqueue": true, "Dequeue": true, "Set": true, "Update": true}
+
+// genPre draws a "grow, then drain" pre-history for the types that can shrink.
+func genPre(r *simrt.Rand, ad *adapter, alpha int) []OpCall {
+	var grow, drain string
+	switch ad.name {
+	case "stack", "lstack", "heap":
+		grow, drain = "Push", "Pop"
+	case "queue", "lqueue":
+		grow, drain = "Enqueue", "Dequeue"
+	case "bstree":
+		grow, drain = "Upsert", "Delete"
+	case "cache":
+		grow, drain = "Update", "Delete"
+	default:
+		return nil
+	}
+	n := 16 + r.Intn(9)
+	if r.Intn(4) == 0 {
+		n = 16 + r.Intn(25)
+	}
+	keep := r.Intn(7)
+	var pre []OpCall
+	for i := 0; i < n; i++ {
+		o := OpCall{Op: grow, A: 1 + r.Intn(alpha), B: 800 + i}
+		if ad.name == "bstree" {
+			o.A = 1 + i // distinct keys: a tree of n nodes
+		}
+		if ad.name == "cache" {
+			o.A = i // key k<i mod 8>; B%3 == 0 below keeps these entries free of expiry
+			o.B = 900 + 3*i
+		}
+		pre = append(pre, o)
+	}
+	switch ad.name {
+	case "bstree":
+		// delete in a drawn order, keeping only keys the observers look at
+		for _, i := range r.Perm(n) {
+			if k := 1 + i; k > maxAlpha || r.Intn(n) >= keep {
+				pre = append(pre, OpCall{Op: drain, A: k})
+			}
+		}
+	case "cache":
+		for i := 0; i < len(cacheKeys); i++ {
+			if r.Intn(len(cacheKeys)) >= keep {
+				pre = append(pre, OpCall{Op: drain, A: i})
+			}
+		}
+	default:
+		for i := 0; i < n-keep; i++ {
+			pre = append(pre, OpCall{Op: drain})
+		}
+	}
+	return pre
+}
+
 // insertTicks puts n "Tick" pseudo-calls (10 ms of simulated time) at drawn places.
 func insertTicks(r *simrt.Rand, w *ContWork, n int) {
 	for k := 0; k < n; k++ {
@@ -713,6 +811,9 @@ func genC02(r *simrt.Rand, tier string, idx uint64) Workload {
 		}
 		w.Init = append(w.Init, v)
 	}
+	if r.Intn(3) == 0 {
+		w.Pre = genPre(r, ad, alpha)
+	}
 	var single []*opDesc
 	for i := range ad.ops {
 		if ad.ops[i].single {
@@ -726,10 +827,28 @@ func genC02(r *simrt.Rand, tier string, idx uint64) Workload {
 	}
 	sh := shapes[r.Intn(len(shapes))]
 	w.Shape = fmt.Sprint(sh)
+	// swarm: 4 runs in 10 draw the calls uniformly, 6 in 10 favour the mutating calls 2:1 (the defects
+	// of interest need two mutators to collide; readers are the witnesses of intermediate states)
+	var muts, reads []*opDesc
+	for _, d := range single {
+		if mutatorOps[d.name] {
+			muts = append(muts, d)
+		} else {
+			reads = append(reads, d)
+		}
+	}
+	favour := (r.Intn(10) < 6 || len(w.Pre) > 0) && len(muts) > 0 && len(reads) > 0
 	for t, n := range sh {
 		var calls []OpCall
 		for j := 0; j < n; j++ {
 			d := single[r.Intn(len(single))]
+			if favour {
+				if r.Intn(3) < 2 {
+					d = muts[r.Intn(len(muts))]
+				} else {
+					d = reads[r.Intn(len(reads))]
+				}
+			}
 			calls = append(calls, genCall(r, ad, alpha, d, t, j))
 		}
 		w.Tasks = append(w.Tasks, calls)
@@ -770,6 +889,7 @@ func (w *ContWork) ShapeName() string { return w.Type + "/" + w.Shape }
 func (w *ContWork) clone() *ContWork {
 	c := *w
 	c.Init = append([]int(nil), w.Init...)
+	c.Pre = append([]OpCall(nil), w.Pre...)
 	c.Tasks = make([][]OpCall, len(w.Tasks))
 	for i, t := range w.Tasks {
 		c.Tasks[i] = append([]OpCall(nil), t...)
@@ -810,6 +930,17 @@ func (w *ContWork) Shrinks() []Workload {
 		c := w.clone()
 		c.Init = append(c.Init[:i], c.Init[i+1:]...)
 		out = append(out, c)
+	}
+	if len(w.Pre) > 0 {
+		c := w.clone()
+		c.Pre = nil
+		out = append(out, c)
+		if len(w.Pre) > 3 {
+			// drop one grow step together with one drain step
+			c = w.clone()
+			c.Pre = append(append([]OpCall(nil), w.Pre[1:len(w.Pre)-1]...))
+			out = append(out, c)
+		}
 	}
 	if w.Cfg != 0 {
 		c := w.clone()
